@@ -54,7 +54,14 @@ def scenario(exe, shim, root, seed, stats, tier):
         args = base_args + ['--force-empty', '--force-zero'] + (['-h'] if rng.chance(1, 3) else [])      # -h: reads also happen in the pre-hash phase
     else:
         args = base_args + ['-p', 'full']
-    cfg = 'ndisks=%d nparity=%d cmd=%s%s io-cache=%s seed=%d' % (nd, npar, cmdkind, ' -h' if '-h' in args else '', iocache, seed)
+    # error limit (-L): a third of the arrays run with a small limit and as many (or one fewer) consecutive faults,
+    # so that the fault that REACHES the limit is exercised too; the others keep the default limit of 100
+    limit = rng.choice([None, None, 1, 2, 3])
+    nfault = 1
+    if limit is not None:
+        args = args + ['-L', str(limit)]
+        nfault = max(1, limit - rng.below(2))
+    cfg = 'ndisks=%d nparity=%d cmd=%s%s io-cache=%s limit=%s faults=%d seed=%d' % (nd, npar, cmdkind, ' -h' if '-h' in args else '', iocache, limit, nfault, seed)
     # count the calls of each class in a fault-free run
     lg = os.path.join(vlib.scratch(), 'c08log%d' % seed)
     classes = []
@@ -87,7 +94,7 @@ def scenario(exe, shim, root, seed, stats, tier):
     for k in ks:
         shutil.rmtree(a.root); shutil.copytree(backup, a.root, symlinks=True)
         err = errno.ENOSPC if (op == 'pwrite' and rng.chance(1, 3)) else errno.EIO
-        env = {'LD_PRELOAD': shim, 'VERIF_FAIL': '%s:%s:%d:%d' % (op, sub, k, err), 'VERIF_LOG': lg, 'VERIF_COUNT': cnt}
+        env = {'LD_PRELOAD': shim, 'VERIF_FAIL': '%s:%s:%d:%d' % (op, sub, k, err), 'VERIF_LOG': lg, 'VERIF_COUNT': cnt, 'VERIF_FAIL_N': str(nfault)}
         r = a.cmd(cmdkind, *args, env=env)
         fails = parse_failed_call(lg)
         if os.path.exists(lg): os.unlink(lg)
@@ -97,13 +104,17 @@ def scenario(exe, shim, root, seed, stats, tier):
             continue
         stats['fired'] += 1
         stats['classes']['%s %s %s' % (cmdkind, op, 'data' if sub == '/d' else 'parity')] = stats['classes'].get('%s %s %s' % (cmdkind, op, 'data' if sub == '/d' else 'parity'), 0) + 1
+        if limit is not None: stats['limited'] = stats.get('limited', 0) + 1
+        if limit is not None and len(fails) >= limit: stats['limit_reached'] = stats.get('limit_reached', 0) + 1
         fop, fpath, foff = fails[0]
-        desc = '%s: %s of %s at offset %d fails with errno %d (call #%d of %d)' % (cfg, fop, fpath.replace(a.root, '$A'), foff, err, k, total)
+        desc = '%s: %s of %s at offset %d fails with errno %d (call #%d of %d%s)' % (cfg, fop, fpath.replace(a.root, '$A'), foff, err, k, total, '; %d calls failed' % len(fails) if len(fails) > 1 else '')
         dec = fx.decode(a) if os.path.exists(a.contents[0]) else None
         problems = []
         if dec is None or not dec.ok:
             problems.append('no loadable content file after the faulty run')
         else:
+          unm = 0
+          for fop, fpath, foff in fails:
             # which stripe was hit
             if sub == '/par/':
                 pos = foff // a.block
